@@ -23,7 +23,8 @@ def str_concat(a, b):
 
 
 def str_of_int(it, v):
-    raise EngineError('str() of a symbolic int')
+    # finite-domain ints are concretised (complete enumeration by solver models)
+    return str(it.ctx.decide_by_model(v.t))
 
 
 def str_to_int(it, x):
